@@ -7,7 +7,7 @@ cfgs = [C('VoronoiFPS', 'sample'), C('VoronoiFPS', 'sample', nsel='none'), C('Vo
         C('VoronoiFPS', 'sample', warm=True), C('VoronoiFPS', 'sample', warm=True, nsel='none'), C('VoronoiFPS', 'sample', thr='absolute'),
         C('FPS', 'sample')]
 UNITS = [(lambda c: (lambda: S.u_fit(c)))(c) for c in cfgs]
-UNITS = [lambda: S.u_voronoi_update(), lambda: S.u_voronoi_update(with_y=True)] + UNITS
+UNITS = [lambda: S.u_voronoi_update(), lambda: S.u_voronoi_update(with_y=True), lambda: S.u_voronoi_update(thr='absolute'), lambda: S.u_voronoi_update(thr='relative')] + UNITS
 UNITS += [lambda: S.u_views(C('VoronoiFPS', 'sample')), lambda: S.u_step_functional(C('VoronoiFPS', 'sample')), lambda: S.u_continue_frame(C('VoronoiFPS', 'sample'))]
 RT = True
 TRUSTED = ["Lean theorem voronoi_prune (lemmas/lean/Lemmas.lean, machine-checked by Lean 4 + Mathlib): ||s-l||^2/4 >= ||x-s||^2 implies ||x-l||^2 >= ||x-s||^2 (used as an axiom of the vector layer)",
